@@ -156,12 +156,12 @@ theorem read_isolated (c : Circuit) (E : Nat → SigMap) (hE : EmitsOK c E) (i :
 
 /-! ## static emission bounds hold in every fixpoint -/
 
-/-- an overridden entity is a single-signal constant combinator that keeps its signal, or a declared source
-(a circuit-connected container: any contents) -/
+/-- an overridden entity is a single-signal constant combinator that emits nothing but its signal, or a declared
+source (a circuit-connected container: any contents) -/
 def InputsOK (c : Circuit) (inp : Inputs) : Prop :=
   ∀ i m, inp i = some m →
     (c.sources.contains i = true ∧ ∃ cd, c.kind i = .controlled cd) ∨
-    (∃ t v lit, c.kind i = .const [(t, lit)] ∧ m = [(t, v)])
+    (∃ t lit, c.kind i = .const [(t, lit)] ∧ ∀ s, s ≠ t → get m s = 0)
 
 theorem contains_false_not_mem (l : List Sig) (s : Sig) (h : l.contains s = false) : s ∉ l := by
   intro hm
@@ -195,12 +195,11 @@ theorem emits_evalEnt (c : Circuit) (inp : Inputs) (hinp : InputsOK c inp) (E : 
   unfold Circuit.evalEnt
   cases hi : inp p with
   | some m =>
-    rcases hinp p m hi with ⟨hs, _⟩ | ⟨t, v, lit, hk, hm⟩
+    rcases hinp p m hi with ⟨hs, _⟩ | ⟨t, lit, hk, hm⟩
     · rw [hsrc] at hs; cases hs
-    subst hm
     simp only [Kind.mayEmitB, hk, Kind.emitList, List.map_cons, List.map_nil] at h
-    have : ¬ t = s := by intro e; subst e; simp at h
-    simp [this]
+    have : ¬ s = t := by intro e; subst e; simp at h
+    exact hm s this
   | none =>
     simp only
     cases hk : c.kind p with
@@ -280,8 +279,12 @@ def InputsAgree (nodes : Array CNode) (bind : Nat → Option Bind) (inp : Inputs
   (∀ n e s, bind n = some (.ent e s) → (∀ name ty v, nodes[n]? ≠ some (.input name ty v)) → inp e = none) ∧
   (∀ e, inp e ≠ none →
       (∃ n name ty v s, n < nodes.size ∧ nodes[n]? = some (.input name ty v) ∧ bind n = some (.ent e s)) ∨
-      (∃ n k, n < nodes.size ∧ nodes[n]? = some (.entOut k) ∧ bind n = some (.many [e]))) ∧
-  (∀ n k e, nodes[n]? = some (.entOut k) → bind n = some (.many [e]) → inp e = some (env.entOut k))
+      (∃ n k, n < nodes.size ∧ nodes[n]? = some (.entOut k) ∧ bind n = some (.many [e])) ∨
+      (∃ n m ty es, n < nodes.size ∧ nodes[n]? = some (.memRead m ty) ∧ bind n = some (.sum es ty) ∧ e ∈ es)) ∧
+  (∀ n k e, nodes[n]? = some (.entOut k) → bind n = some (.many [e]) → inp e = some (env.entOut k)) ∧
+  (∀ n m ty es, nodes[n]? = some (.memRead m ty) → bind n = some (.sum es ty) →
+      (∀ e, e ∈ es → (inp e).isSome = true) ∧
+      get (Circuit.sumOuts es (fun e => (inp e).getD [])) ty = env.mem m)
 
 theorem kind_getD (nodes : Array CNode) (n : Nat) (nd : CNode) (h : nodes[n]? = some nd) :
     ∃ hn : n < nodes.size, nodes[n] = nd := by
@@ -329,7 +332,7 @@ theorem inp_none_of_arith (x : Ctx) (e : Nat) (cfg : ArithCfg) (hk : x.c.kind e 
   cases h : x.inp e with
   | none => rfl
   | some m =>
-    rcases x.hinp e m h with ⟨_, cd, hk'⟩ | ⟨t, v, lit, hk', _⟩
+    rcases x.hinp e m h with ⟨_, cd, hk'⟩ | ⟨t, lit, hk', _⟩
     · rw [hk] at hk'; cases hk'
     · rw [hk] at hk'; cases hk'
 
@@ -337,7 +340,7 @@ theorem inp_none_of_decider (x : Ctx) (e : Nat) (cfg : DeciderCfg) (hk : x.c.kin
   cases h : x.inp e with
   | none => rfl
   | some m =>
-    rcases x.hinp e m h with ⟨_, cd, hk'⟩ | ⟨t, v, lit, hk', _⟩
+    rcases x.hinp e m h with ⟨_, cd, hk'⟩ | ⟨t, lit, hk', _⟩
     · rw [hk] at hk'; cases hk'
     · rw [hk] at hk'; cases hk'
 
@@ -348,13 +351,18 @@ theorem inp_none_of_notInput (x : Ctx) (p : Nat) (h : notInputEnt x.nodes x.bind
     exfalso
     unfold notInputEnt at h
     rw [List.all_eq_true] at h
-    rcases x.hagree.2.2.1 p (by rw [hi]; simp) with ⟨n, name, ty, v, s, hn, hnode, hb⟩ | ⟨n, k, hn, hnode, hb⟩
+    rcases x.hagree.2.2.1 p (by rw [hi]; simp) with ⟨n, name, ty, v, s, hn, hnode, hb⟩ | ⟨n, k, hn, hnode, hb⟩ |
+        ⟨n, m, ty, es, hn, hnode, hb, hmem⟩
     · have := h n (List.mem_range.mpr hn)
       rw [hnode, hb] at this
       simp at this
     · have := h n (List.mem_range.mpr hn)
       rw [hnode, hb] at this
       simp at this
+    · have := h n (List.mem_range.mpr hn)
+      rw [hnode, hb] at this
+      simp at this
+      exact this hmem
 
 end Ctx
 
@@ -1249,6 +1257,27 @@ theorem checkSum_sound (x : Ctx) (n : Nat) (hn : n < x.nodes.size) (es : List Na
         rw [nodeVal_select x.nodes x.env n hn b ty hk hb]
         exact hh ty
       | _ => simp at hm
+  | memRead m ty =>
+    rw [hk] at h
+    have hty : ty = s := by simpa using h
+    subst hty
+    have hnode : x.nodes[n]? = some (.memRead m ty) := by rw [Array.getElem?_eq_getElem hn, hk]
+    obtain ⟨hov, hval⟩ := x.hagree.2.2.2.2 n m ty es hnode hbind
+    have hE : ∀ e, e ∈ es → x.E e = (x.inp e).getD [] := by
+      intro e he
+      have := hov e he
+      cases hi : x.inp e with
+      | none => rw [hi] at this; cases this
+      | some mm =>
+        rw [← x.hfix e]; unfold Circuit.evalEnt; rw [hi]; rfl
+    have hs : Circuit.sumOuts es x.E = Circuit.sumOuts es (fun e => (x.inp e).getD []) := by
+      unfold Circuit.sumOuts
+      congr 1
+      apply List.map_congr_left
+      intro e he
+      exact hE e he
+    rw [hs, hval, nodeVal_eq x.nodes x.env n hn ty (by rw [hk]; rfl), hk]
+    simp [evalNode]
   | arith op a b ty =>
     rw [hk] at h
     cases op with
@@ -1795,7 +1824,7 @@ theorem checkMany_sound (x : Ctx) (n : Nat) (hn : n < x.nodes.size) (es : List N
     match es, h with
     | [e], _ =>
       have hnode : x.nodes[n]? = some (.entOut k) := by rw [Array.getElem?_eq_getElem hn, hk]
-      have hov := x.hagree.2.2.2 n k e hnode hbind
+      have hov := x.hagree.2.2.2.1 n k e hnode hbind
       have hE : x.E e = x.env.entOut k := by
         rw [← x.hfix e]; unfold Circuit.evalEnt; rw [hov]
       rw [get_sumOuts_single, hE]
